@@ -39,6 +39,10 @@ def _colour_box(cr):
     cr.bounded_check(run_contract_enum, "expand-merge-edges-box", c12.expand_merges, xargs,
                      f"{len(xargs)} edge sets over flat / nested / repeated merges, resolved and unresolved members: one edge per leaf member from its physical producer, the merge remembered; "
                      "edges into a junction vanish (contract evaluated on the real ConnectionPlanner._expand_merge_edges)")
+    largs = c12.edge_locks_arg_sets()
+    cr.bounded_check(run_contract_enum, "edge-locked-colours-box", c12.edge_locks, largs,
+                     f"{len(largs)} merge memberships (one, two, three merges; chained or not; resolved member; edges for all / one merge): locks exactly for members of chained merges, "
+                     "alternating in merge creation order (contract evaluated on the real ConnectionPlanner._compute_edge_locked_colors)")
     pcargs = c12.plan_connections_arg_sets()
     cr.bounded_check(run_contract_enum, "plan-connections-box", c12.plan_connections_c, pcargs,
                      f"{len(pcargs)} wire plans: circuit edges = graph edges minus internal feedback; colour = edge lock, else planned; earlier wires restored once each "
